@@ -1,14 +1,32 @@
 package j5sgen
 
 import (
+	"strings"
+
+	"github.com/iancoleman/strcase"
 	"verifharness/vh"
 )
+
+func pickElement(r *vh.Rand, files []*File, kind string) *Element {
+	var c []*Element
+	for _, f := range files {
+		for _, e := range f.Elements {
+			if e.Kind == kind {
+				c = append(c, e)
+			}
+		}
+	}
+	if len(c) == 0 {
+		return nil
+	}
+	return vh.Pick(r, c)
+}
 
 // Malform breaks a valid bundle in one place (in the files of pkg) so that the package is
 // outside the language; it returns what was done, or "" if no suitable place was found.
 // The compiler must reject the result (the model returns Err on the same input).
 func Malform(r *vh.Rand, b *Bundle, pkg string) string {
-	msgs, _, files := sites(b, pkg)
+	msgs, _, files, _ := sites(b, pkg)
 	if len(files) == 0 {
 		return ""
 	}
@@ -36,7 +54,7 @@ func Malform(r *vh.Rand, b *Bundle, pkg string) string {
 		return cm[i], cp[i]
 	}
 	for tries := 0; tries < 20; tries++ {
-		switch r.Intn(8) {
+		switch r.Intn(15) {
 		case 0: // reference to a type nobody declares
 			if _, p := pickProp(func(m msgSite, p *Property) bool { return true }); p != nil {
 				p.F = &Field{Kind: "objref", Ref: &Ref{Name: "NoSuchType9"}}
@@ -94,6 +112,87 @@ func Malform(r *vh.Rand, b *Bundle, pkg string) string {
 				p.Required, p.Optional = true, true
 				return "required and optional"
 			}
+		// ---- two declarations that generate the same proto symbol (the linker's symbol table rejects them)
+		case 8: // a second service with a method of the same name: <Method>Request twice in <pkg>.service
+			if e := pickElement(r, files, "service"); e != nil && len(e.Service.Methods) > 0 {
+				m := *vh.Pick(r, e.Service.Methods)
+				m.Path = "/twin9"
+				twin := &Service{Name: e.Service.Name + "Twin9", Methods: []*Method{&m}}
+				f := vh.Pick(r, files)
+				f.Elements = append(f.Elements, &Element{Kind: "service", Service: twin})
+				return "duplicate symbol: method name in two services"
+			}
+		case 9: // the same service name twice
+			if e := pickElement(r, files, "service"); e != nil {
+				twin := &Service{Name: e.Service.Name, Methods: []*Method{{Name: "Twin9", Verb: "POST", Path: "/twin9"}}}
+				f := vh.Pick(r, files)
+				f.Elements = append(f.Elements, &Element{Kind: "service", Service: twin})
+				return "duplicate symbol: service declared twice"
+			}
+		case 10: // the same topic twice / a topic message name twice
+			if e := pickElement(r, files, "topic"); e != nil && e.Topic.Kind == "publish" {
+				nm := "Twin9"
+				twin := &Topic{Kind: "publish", Name: e.Topic.Name, Msgs: []*Tmsg{{Name: &nm}}}
+				what := "duplicate symbol: topic declared twice"
+				if r.Chance(50) && e.Topic.Msgs[0].Name != nil {
+					twin = &Topic{Kind: "publish", Name: e.Topic.Name + "Twin9", Msgs: []*Tmsg{{Name: e.Topic.Msgs[0].Name}}}
+					what = "duplicate symbol: topic message name in two topics"
+				}
+				f := vh.Pick(r, files)
+				f.Elements = append(f.Elements, &Element{Kind: "topic", Topic: twin})
+				return what
+			}
+		case 11: // a sibling enum with the same prefix and option: the value name twice in the package scope
+			if e := pickElement(r, files, "enum"); e != nil && len(e.N.Enum.Opts) > 0 {
+				pfx := e.N.Enum.Prefix
+				if pfx == "" {
+					pfx = strcase.ToScreamingSnake(e.N.Enum.Name) + "_"
+				}
+				twin := &Enum{Name: e.N.Enum.Name + "Twin9", Prefix: pfx, Opts: []string{e.N.Enum.Opts[len(e.N.Enum.Opts)-1]}}
+				f := vh.Pick(r, files)
+				f.Elements = append(f.Elements, &Element{Kind: "enum", N: &Nested{Kind: "enum", Name: twin.Name, Enum: twin}})
+				return "duplicate symbol: enum value of a sibling enum"
+			}
+		case 12: // UNSPECIFIED spelled as a later option: clashes with the implicit zero value
+			_, enums, _, _ := sites(b, pkg)
+			var cands []enumSite
+			for _, es := range enums {
+				if len(es.e.Opts) > 0 && !strings.HasSuffix(es.e.Opts[0], "UNSPECIFIED") {
+					cands = append(cands, es)
+				}
+			}
+			if len(cands) > 0 {
+				es := vh.Pick(r, cands)
+				es.e.Opts = append(es.e.Opts, "UNSPECIFIED")
+				return "duplicate symbol: UNSPECIFIED as a later option"
+			}
+		case 13: // an option spelled with and without the prefix
+			_, enums, _, _ := sites(b, pkg)
+			var cands []enumSite
+			for _, es := range enums {
+				pfx := es.e.Prefix
+				if pfx == "" {
+					pfx = strcase.ToScreamingSnake(es.name) + "_"
+				}
+				if n := len(es.e.Opts); n > 0 && !strings.HasPrefix(es.e.Opts[n-1], pfx) && !strings.HasSuffix(es.e.Opts[n-1], "UNSPECIFIED") {
+					cands = append(cands, es)
+				}
+			}
+			if len(cands) > 0 {
+				es := vh.Pick(r, cands)
+				pfx := es.e.Prefix
+				if pfx == "" {
+					pfx = strcase.ToScreamingSnake(es.name) + "_"
+				}
+				es.e.Opts = append(es.e.Opts, pfx+es.e.Opts[len(es.e.Opts)-1])
+				return "duplicate symbol: option spelled with and without the prefix"
+			}
+		case 14: // an enum value named like a type of the same scope
+			f := vh.Pick(r, files)
+			twin := &Enum{Name: "Twin9Kind", Prefix: "T", Opts: []string{"FIRST9", "WIN9"}}
+			f.Elements = append(f.Elements, &Element{Kind: "object", N: &Nested{Kind: "object", Name: "TWIN9"}},
+				&Element{Kind: "enum", N: &Nested{Kind: "enum", Name: twin.Name, Enum: twin}})
+			return "duplicate symbol: enum value named like a type"
 		}
 	}
 	return ""
